@@ -164,7 +164,7 @@ pub fn check_hex_case(spec: &HexSpec, acc: &str, i: usize, j: usize) -> Result<(
 
 pub fn run_c15(cfg: &ShardCfg, out: &mut ShardOut) {
     let mut rng = Rng::new(mix(&[cfg.seed, 15]));
-    let max_len = if cfg.thorough { 18 } else { 12 };
+    let max_len = if cfg.thorough { 24 } else { 16 };
     let mut sw = Sweep { cfg, out, viol_count: BTreeMap::new() };
     let mut case_no = 0u64;
     let mut sample_left = 3;
@@ -379,7 +379,7 @@ pub fn check_concat(a: &HexSpec, b: &HexSpec) -> Result<(), (String, String)> {
 
 pub fn run_c16(cfg: &ShardCfg, out: &mut ShardOut) {
     let mut rng = Rng::new(mix(&[cfg.seed, 16]));
-    let max_len = if cfg.thorough { 20 } else { 12 };
+    let max_len = if cfg.thorough { 24 } else { 16 };
     let mut sw = Sweep { cfg, out, viol_count: BTreeMap::new() };
     let mut k = 0u64;
     for la in 0..=max_len {
@@ -527,7 +527,7 @@ pub fn run_c17(cfg: &ShardCfg, out: &mut ShardOut) {
             }
         }
     }
-    let samples = if cfg.thorough { 60000 } else { 6000 };
+    let samples = if cfg.thorough { 200000 } else { 30000 };
     for _ in 0..samples {
         let len = *rng.pick(&[5usize, 6, 7, 7, 8, 8, 8, 9, 9, 10]);
         let mut s = String::new();
